@@ -100,24 +100,25 @@ Proof.
   unfold shape in D. cbn [cap queue slot stopping rx pc passed swapped accepted handled drained
                           released overlap late tr] in *.
   unfold step, step_gen in H.
-  destruct e; cbn [cap queue slot stopping rx pc passed swapped accepted handled drained
-                   released overlap late tr closed w_queue w_slot w_rx w_pc w_passed w_swapped
-                   w_accepted w_handled w_drained w_released w_late w_tr set_stopping log
-                   in_drop_window drop_receiver] in H.
+  destruct e;
+    unfold closed, w_queue, w_slot, w_rx, w_pc, w_passed, w_swapped, w_accepted, w_handled,
+           w_drained, w_released, w_late, w_tr, set_stopping, log, in_drop_window, drop_receiver in H;
+    cbn [cap queue slot stopping rx pc passed swapped accepted handled drained
+         released overlap late tr] in H.
   - (* ESendClosed *)
-    brk H. inversion H; subst. constructor; assumption.
+    brk H. injection H as <-. constructor; assumption.
   - (* ESendPass *)
-    brk H. inversion H; subst; clear H.
-    apply orb_false_iff in Heqb. destruct Heqb as [Hst _]. subst st.
-    constructor; cbn; auto. intros Hx; discriminate Hx.
+    brk H. injection H as <-.
+    apply orb_false_iff in Heqb. destruct Heqb as [Hst _].
+    constructor; cbn; auto. rewrite Hst. intros Hx; discriminate Hx.
   - (* ESendPush *)
     destruct (remove1 m pa) as [pa'|] eqn:Hrm; [|discriminate].
     destruct (remove1_spec _ _ _ Hrm) as [Hin Hinc].
     destruct r.
     + (* Ok *)
       destruct (rxx && Nat.ltb (length qu) cp) eqn:Hc; [|discriminate].
-      apply andb_true_iff in Hc. destruct Hc as [Hrx _]. subst rxx.
-      inversion H; subst; clear H.
+      apply andb_true_iff in Hc. destruct Hc as [Hrx _].
+      injection H as <-.
       constructor; cbn [cap queue slot stopping rx pc passed swapped accepted handled drained
                         released overlap late tr].
       * rewrite A. rewrite <- !app_assoc. reflexivity.
@@ -127,45 +128,45 @@ Proof.
       * exact D.
       * exact K.
       * intros Hp. rewrite (L Hp).
-        destruct p; cbn in Hp; try discriminate; cbn in K; try discriminate. reflexivity.
+        destruct p; cbn in Hp; try discriminate; cbn in K; try congruence; try reflexivity.
       * intros Hs. eapply incl_trans'; [exact Hinc | apply J1; exact Hs].
       * intros Hf. destruct (J2 Hf) as [Hs Hl]. split; [exact Hs|].
         destruct p; cbn in Hf; try discriminate; cbn; try exact Hl.
         intros y Hy. apply in_app_or in Hy. destruct Hy as [Hy|[<-|[]]]; [apply Hl; exact Hy|].
         apply (J1 Hs). exact Hin.
     + (* Full *)
-      brk H. inversion H; subst; clear H.
+      brk H. injection H as <-.
       constructor; cbn; auto. intros Hs. eapply incl_trans'; [exact Hinc | apply J1; exact Hs].
     + (* Closed *)
-      brk H. inversion H; subst; clear H.
+      brk H. injection H as <-.
       constructor; cbn; auto. intros Hs. eapply incl_trans'; [exact Hinc | apply J1; exact Hs].
   - (* EStopNoop *)
-    brk H. inversion H; subst. constructor; assumption.
+    brk H. injection H as <-. constructor; assumption.
   - (* EStopSwap *)
-    brk H. inversion H; subst; clear H.
+    brk H. injection H as <-.
     constructor; cbn; auto.
     + intros _. apply incl_refl.
     + intros Hf. destruct (J2 Hf) as [Hs _]. discriminate Hs.
   - (* EStopPush *)
-    brk H; inversion H; subst; clear H; constructor; cbn; auto.
+    brk H; injection H as <-; constructor; cbn; auto.
   - (* EPreStart *)
-    brk H. inversion H; subst; clear H. destruct D as [-> ->].
+    brk H. injection H as <-. destruct D as [-> ->].
     destruct ok; constructor; cbn; auto; try (intros Hx; discriminate Hx).
   - (* EStartAck *)
-    brk H. inversion H; subst; clear H. destruct D as [-> ->].
+    brk H. injection H as <-. destruct D as [-> ->].
     destruct delivered; constructor; cbn; auto; try (intros Hx; discriminate Hx).
     left. split; reflexivity.
   - (* EPostStart *)
-    brk H. inversion H; subst; clear H. destruct D as [-> ->].
+    brk H. injection H as <-. destruct D as [-> ->].
     destruct ok; constructor; cbn; auto; try (intros Hx; discriminate Hx).
     right. left. split; reflexivity.
   - (* ESelStop *)
-    brk H; inversion H; subst; clear H; constructor; cbn; auto; try (intros Hx; discriminate Hx).
+    brk H; injection H as <-; constructor; cbn; auto; try (intros Hx; discriminate Hx).
     right. right. exact D.
   - (* ESelMsg *)
     destruct p; try discriminate.
     destruct qu as [|x q], m as [m|]; try discriminate.
-    + destruct (msg_eqb m x); [|discriminate]. inversion H; subst; clear H.
+    + destruct (msg_eqb m x); [|discriminate]. injection H as <-.
       destruct (B eq_refl) as [-> ->].
       constructor; cbn [cap queue slot stopping rx pc passed swapped accepted handled drained
                         released overlap late tr]; auto.
@@ -173,25 +174,25 @@ Proof.
       * rewrite C. rewrite app_nil_r. reflexivity.
       * unfold shape. cbn [pc tr handled]. rewrite D, map_app. reflexivity.
       * intros Hx; discriminate Hx.
-    + inversion H; subst; clear H. constructor; cbn; auto.
+    + injection H as <-. constructor; cbn; auto.
   - (* EHandled *)
     destruct p; try discriminate. destruct (msg_eqb m m0); [|discriminate].
-    inversion H; subst; clear H. destruct (B eq_refl) as [-> ->].
+    injection H as <-. destruct (B eq_refl) as [-> ->].
     assert (Hc : re ++ [m0] = ha ++ []) by (rewrite app_nil_r; symmetry; exact C).
     destruct (mbeh m0); constructor; cbn; auto; try (intros Hx; discriminate Hx);
       right; right; exact D.
   - (* EBeginStop *)
-    destruct p; try discriminate. inversion H; subst; clear H.
+    destruct p; try discriminate. injection H as <-.
     constructor; cbn; auto.
     + intros _. destruct st; [apply J1; reflexivity | apply incl_refl].
     + intros _. split; [reflexivity|]. destruct (B eq_refl) as [_ ->]. intros y [].
   - (* EPreStop *)
-    destruct p; try discriminate. inversion H; subst; clear H.
+    destruct p; try discriminate. injection H as <-.
     destruct (J2 eq_refl) as [Hs Hl].
     constructor; cbn; auto.
     exists t, ok. split; [reflexivity | exact D].
   - (* EDrain *)
-    destruct p; try discriminate. inversion H; subst; clear H.
+    destruct p; try discriminate. injection H as <-.
     destruct (B eq_refl) as [-> ->].
     constructor; cbn [cap queue slot stopping rx pc passed swapped accepted handled drained
                       released overlap late tr]; auto.
@@ -202,18 +203,18 @@ Proof.
     + intros Hf. destruct k as [x|f]; [|destruct f]; cbn in Hf; try discriminate.
       destruct (J2 eq_refl) as [Hs _]. split; [exact Hs|]. intros y [].
   - (* EDropRx *)
-    destruct p; try discriminate. inversion H; subst; clear H.
+    destruct p; try discriminate. injection H as <-.
     destruct k as [x|f]; constructor; cbn; auto;
       try (intros Hx; discriminate Hx).
     + destruct f; cbn in *; auto. destruct D.
     + destruct f; cbn in *; auto. intros Hx; discriminate Hx.
   - (* EPostStop *)
-    destruct p; try discriminate. inversion H; subst; clear H.
+    destruct p; try discriminate. injection H as <-.
     constructor; cbn; auto.
     destruct D as (t0 & a & -> & Hsh). exists t0, a, ok. split; [|exact Hsh].
     rewrite <- app_assoc. reflexivity.
   - (* ECancel *)
-    destruct p; try discriminate; inversion H; subst; clear H.
+    destruct p; try discriminate; injection H as <-.
     + (* PPreStart *) destruct D as [-> ->].
       constructor; cbn; auto; try (intros Hx; discriminate Hx).
       left. split; reflexivity.
